@@ -1,7 +1,7 @@
 (* Arrays as lists (checked get/set against nth/upd), the lexicographic order on arrays of equal
    length, the generic "immediate successor" lemma for lexicographic families, and finiteness of
    families of bounded arrays. *)
-From Coq Require Import List ZArith Lia Arith Bool.
+From Coq Require Import List ZArith Lia Arith Bool Sorted.
 From Mamba Require Import Iter.Model.
 Import ListNotations.
 Open Scope Z_scope.
@@ -223,4 +223,12 @@ Proof.
     destruct (Nat.eq_dec (length x) (S m)) as [E|E].
     + left. apply all_lists_complete; auto. rewrite <- E. auto.
     + right. apply IH; auto. lia.
+Qed.
+
+(* a strictly sorted list has no repetition *)
+Lemma strict_sorted_nodup : forall (lt : list Z -> list Z -> Prop), (forall x, ~ lt x x) ->
+  forall l, StronglySorted lt l -> NoDup l.
+Proof.
+  intros lt Hirr l H. induction H as [|a l Hs IH Hall]; constructor; auto.
+  intro Hin. rewrite Forall_forall in Hall. apply (Hirr a). apply Hall, Hin.
 Qed.
